@@ -535,7 +535,9 @@ public:
 
     Matrix eigenvectors()
     {
-        return m_evectors;
+        // X holds the current approximations to the eigenvectors (N x M);
+        // m_evectors is only the coefficient matrix of the last Rayleigh-Ritz step
+        return Matrix(X);
     }
 
     Matrix residuals()
